@@ -107,6 +107,13 @@ func C02(c *core.Ctx) {
 	}
 }
 
+// failedEncode makes the client fail one Send half way through encoding (recycled encoders /
+// buffers must not leak into what the next helper writes).
+func failedEncode(cl *client.Client) {
+	_ = cl.SendMessage("bad", unencodableRecord(2100, 1))
+	_ = cl.SendMessage("bad", unencodableRecord(10, 0))
+}
+
 func c02Helpers(c *core.Ctx, i int) {
 	r := c.Rng
 	tag := gen.GenBytes(r, false)
@@ -115,6 +122,9 @@ func c02Helpers(c *core.Ctx, i int) {
 	// SendMessage / SendMessageExt
 	for _, ext := range []bool{false, true} {
 		cl, f := liveClient(false)
+		if i%2 == 1 {
+			failedEncode(cl)
+		}
 		lo := time.Now()
 		var err error
 		if ext {
@@ -163,6 +173,9 @@ func c02Helpers(c *core.Ctx, i int) {
 	}
 	{
 		cl, f := liveClient(false)
+		if i%2 == 1 {
+			failedEncode(cl)
+		}
 		err := cl.SendForward(string(tag), gen.EntriesToGo(r, es))
 		wire := f.Conns[0].Accepted()
 		c.Eval()
@@ -190,6 +203,9 @@ func c02Helpers(c *core.Ctx, i int) {
 	}
 	for _, pc := range cases {
 		cl, f := liveClient(false)
+		if i%2 == 1 {
+			failedEncode(cl)
+		}
 		err := pc.send(cl)
 		wire := f.Conns[0].Accepted()
 		c.Eval()
